@@ -385,6 +385,7 @@ def run(pr, repo):
     from . import C09
     # 'the same charge curves that are reported': the charge sums range over exactly the titratable groups (C09-CC)
     tasks = [(task_group, ()), (task_container, ()), (task_profile, ()), (task_profile_rows, ()), (task_grid, ()), (C09.task_container_charge, ()),
+             (C09.task_group_charge, ()),  # ... with the group's OWN model pKa in the unfolded state, as in its folding energy
              (C09.task_profile, ()),      # the charge curve of a conformation comes from THAT container's groups (also for the average)
              (task_write_pka, ())]
     steps = [(1.0, 0.0), (2.0, 0.0), (0.5, 0.5), (1.5, 1.0)] if pr.tier == 'quick' else \
@@ -469,6 +470,21 @@ def bounded(pr):
                 bad = 'printed rows %s, expected %s' % ([str(x) for x in printed][:8], [str(round(e, 2)) for e in expect][:8])
             if bad and len(viol2) < 3:
                 viol2.append({'what': '%s -g %r -w %r: %s' % (name, grid, window, bad), 'replay': None})
+    # several grids asked of ONE loaded molecule, one after the other: each profile lies on the grid it was asked for
+    mol = native.run_text(native.pdb_lines(names[0]))
+    for grid in [(2.0, 10.0, 0.5), (6.0, 8.0, 0.25), (0.0, 14.0, 1.0), (2.0, 10.0, 0.5)]:
+        ev2 += 1
+        gpts = [grid[0] + k * grid[2] for k in range(int(round((grid[1] - grid[0]) / grid[2])) + 1)]
+        fp = mol.get_folding_profile('AVR', 'neutral', grid)
+        cp = mol.get_charge_profile('AVR', grid=grid)
+        for nm, rows in (('folding', fp[0]), ('charge', cp)):
+            if len(rows) != len(gpts) or any(abs(r[0] - g) > 1e-9 for r, g in zip(rows, gpts)):
+                if len(viol2) < 3:
+                    viol2.append({'what': '%s: %s profile asked on grid %r of a molecule that answered other grids before: %d rows from pH %r, '
+                                          'the grid has %d points from %r' % (names[0], nm, grid, len(rows), rows[0][0] if rows else None,
+                                                                              len(gpts), gpts[0]), 'replay': None})
+        if fp[1] and not (grid[0] - 1e-9 <= fp[1][0] <= grid[1] + 1e-9) and len(viol2) < 3:
+            viol2.append({'what': '%s: optimum pH %r lies outside the grid %r it was asked on' % (names[0], fp[1][0], grid), 'replay': None})
     pr.bounded.append({'name': 'C10-monitor: profile and printed window rows on real runs', 'evaluations': ev2,
                        'distinct_nontrivial': len(cases), 'bound': '%d structures x %d grid/window pairs' % (len(names), len(cases)),
                        'rule': 'printed pH rows compared with grid and window lattices computed in exact Decimal arithmetic',
